@@ -894,3 +894,120 @@ func (b *TermBank) freeBound(t *Term) map[*Term]bool {
 }
 
 func (b *TermBank) hasFreeBound(t *Term) bool { return len(b.freeBound(t)) > 0 }
+
+// conjuncts returns the conjunct list of t.
+func conjuncts(t *Term) []*Term {
+	if t.Op == "and" {
+		return t.Args
+	}
+	if t.IsTrue() {
+		return nil
+	}
+	return []*Term{t}
+}
+
+// Relativize strips the conjuncts common to all path conditions: under the
+// merged path condition Or(conds...), cond_i is equivalent to what is left.
+func (b *TermBank) Relativize(conds []*Term) (common []*Term, rest []*Term) {
+	if len(conds) < 2 {
+		return nil, conds
+	}
+	count := map[int]int{}
+	for _, c := range conds {
+		seen := map[int]bool{}
+		for _, k := range conjuncts(c) {
+			if !seen[k.id] {
+				seen[k.id] = true
+				count[k.id]++
+			}
+		}
+	}
+	isCommon := func(k *Term) bool { return count[k.id] == len(conds) }
+	for _, k := range conjuncts(conds[0]) {
+		if isCommon(k) {
+			common = append(common, k)
+		}
+	}
+	if len(common) == 0 {
+		return nil, conds
+	}
+	for _, c := range conds {
+		var r []*Term
+		for _, k := range conjuncts(c) {
+			if !isCommon(k) {
+				r = append(r, k)
+			}
+		}
+		rest = append(rest, b.And(r...))
+	}
+	return common, rest
+}
+
+// OrFactored is Or with the common conjuncts factored out:
+// Or(C&&a, C&&b) = C && Or(a, b); a diamond closes back to C.
+func (b *TermBank) OrFactored(conds ...*Term) *Term {
+	common, rest := b.Relativize(conds)
+	if len(common) == 0 {
+		return b.Or(conds...)
+	}
+	if b.covers(rest, 0) {
+		return b.And(common...)
+	}
+	return b.And(append(append([]*Term{}, common...), b.Or(rest...))...)
+}
+
+// covers reports whether the disjunction of the given conjunctions is
+// valid, by Shannon expansion on literals that occur (positively or
+// negatively) in every disjunct - enough to close if/else-if ladders.
+func (b *TermBank) covers(ds []*Term, depth int) bool {
+	if len(ds) == 0 || depth > 12 {
+		return false
+	}
+	for _, d := range ds {
+		if d.IsTrue() {
+			return true
+		}
+	}
+	atom := func(l *Term) (*Term, bool) {
+		if l.Op == "not" {
+			return l.Args[0], false
+		}
+		return l, true
+	}
+	for _, l := range conjuncts(ds[0]) {
+		a, _ := atom(l)
+		var pos, neg []*Term
+		ok := true
+		for _, d := range ds {
+			var rest []*Term
+			found := 0
+			for _, k := range conjuncts(d) {
+				ka, kp := atom(k)
+				if ka == a {
+					if kp {
+						found = 1
+					} else {
+						found = -1
+					}
+					continue
+				}
+				rest = append(rest, k)
+			}
+			switch found {
+			case 1:
+				pos = append(pos, b.And(rest...))
+			case -1:
+				neg = append(neg, b.And(rest...))
+			default:
+				ok = false
+			}
+			if !ok {
+				break
+			}
+		}
+		if ok && len(pos) > 0 && len(neg) > 0 && b.covers(pos, depth+1) && b.covers(neg, depth+1) {
+			return true
+		}
+	}
+	return false
+}
